@@ -111,12 +111,15 @@ def uses(c, i):
     return sum(1 for d in c["dsgs"] for w in ("p1", "p2") if _src_of(d[w]) == i)
 
 
-def outside(c):
-    """does a design get a non-Stream iterable where it needs a Stream?  (TypeError allowed there)"""
+def outside(c, strict=False):
+    """does a design get an iterable that is not a Stream instance?  The property quantifies over numbers and
+    Stream-valued parameters: a strategy may refuse any other iterable with a TypeError when it is called
+    (today: the arguments of `needs_stream`; strict=True asks for exactly those); when it accepts one, the
+    coefficients must still follow it sample by sample."""
     for d in c["dsgs"]:
         for w in ("p1", "p2"):
             i = _src_of(d[w])
-            if i is not None and c["srcs"][i]["flav"] not in STREAMISH and needs_stream(d, w):
+            if i is not None and c["srcs"][i]["flav"] not in STREAMISH and (needs_stream(d, w) or not strict):
                 return True
     return False
 
@@ -132,7 +135,7 @@ def valid(c):
                 return False
             built.add(op[1])
         elif op[0] == "take":
-            if op[1] not in built:
+            if op[1] not in built or c["dsgs"][op[1]].get("bad"):
                 return False
         elif op[0] == "set":
             if not 0 <= op[1] < ns or c["srcs"][op[1]]["flav"] != "ctrl":
@@ -229,13 +232,17 @@ def _make_design(d, objs):
     def arg(p):
         return objs[p["src"]] if "src" in p else _const(p)
     k = d["kind"]
+    bad = d.get("bad")
     if k in ("lowpass", "highpass"):
         return getattr(al, k)[d["strategy"]](arg(d["p1"]))
     if k == "resonator":
-        return al.resonator[d["strategy"]](arg(d["p1"]), arg(d["p2"]))
+        return al.resonator[d["strategy"]](arg(d["p1"]), None if bad == "none-bw" else arg(d["p2"]))
     if k == "klapuri":
-        return al.gammatone.klapuri(arg(d["p1"]), arg(d["p2"]))
+        return al.gammatone.klapuri(arg(d["p1"]), None if bad == "none-bw" else arg(d["p2"]))
+    from fractions import Fraction
     delay = float(d["delay"]) if d.get("dtype") == "float" else d["delay"]
+    if bad == "frac-delay":
+        delay = Fraction(2 * d["delay"] + 1, 2)
     return al.comb[d["strategy"]](delay, arg(d["p1"]))
 
 
@@ -306,7 +313,14 @@ def impl_hist(c):
             except Exception as ex:
                 f = {"err": err_kind(ex)}
             final.append(f)
+        for s, o in zip(c["srcs"], objs):
+            if s["flav"] == "thub":
+                o._iters[:] = []          # copies reserved for calls that raised: no MemoryLeakWarning from __del__
         del designs, objs
+        if any(d.get("bad") for d in c["dsgs"]):
+            import gc
+            gc.collect()                  # tee hubs left half used inside a call that raised: collected (and their
+            #                               warning filtered) here, not in the middle of a later case
         return {"steps": steps, "final": final}
 
 
@@ -340,13 +354,15 @@ def problems_hist(c, io, drv):
     for t, op in enumerate(c["ops"]):
         st = io["steps"][t]
         d = c["dsgs"][op[1]] if op[0] != "set" else None
-        name = None if d is None else d["kind"] + "." + str(d.get("strategy", "klapuri"))
+        name = "hist.set" if d is None else d["kind"] + "." + str(d.get("strategy", "klapuri"))
         if op[0] == "take":
             for w in ("p1", "p2"):
                 i = _src_of(d[w])
                 if i is not None:
                     expected_pulls[i] += 1
-        if "err" in st:
+        if "err" in st and op[0] == "build" and d.get("bad"):
+            pass          # a call that cannot succeed: whatever it raises, the shared objects must be left alone
+        elif "err" in st:
             if op[0] == "build" and st["err"] == "TypeError" and out_ok:
                 return out        # a non-Stream iterable where the strategy needs a Stream: outside the property
             if st["err"] == "not-built" and out_ok:
@@ -628,7 +644,7 @@ def _interleave(rng, nd, per, ctrls, pattern):
             ops.append(["build", j])
     for n, j in enumerate(takes):
         for (i, role, safe) in ctrls:
-            if n and rng.random() < 0.5:
+            if rng.random() < (0.5 if n else 0.25):
                 ops.append(["set", i, _f(_role_value(rng, role, safe))])
         ops.append(["take", j])
     return ops
@@ -677,6 +693,16 @@ def gen_hist(rng, tier, scale=1):
                                fl, "bw", "rr"))
             cases.append(_bank(rng, [_design("comb", "fb", 2), _design("comb", "ff", 5), _design("comb", "fb", 64)],
                                fl, "alpha", "rand"))
+        # a call that raises in the middle of a history (comb with a non-integer delay, resonator / klapuri with
+        # bandwidth None) while the shared object is in use by two other designs
+        for fl in STREAMISH + ("gen",):
+            for good, bad, role in ((_design("comb", "fb", 3), dict(_design("comb", "ff", 2), bad="frac-delay"), "alpha"),
+                                    (_design("resonator", "freq_poles_exp"), dict(_design("resonator", "poles_exp"), bad="none-bw"), "freq"),
+                                    (_design("lowpass", "z"), dict(_design("klapuri"), bad="none-bw"), "freq")):
+                c = _bank(rng, [good, bad, good], fl, role, "rr")
+                c["ops"] = [["build", 0], ["take", 0], ["build", 1], ["build", 2]] + \
+                           [o for o in c["ops"] if o[0] != "build" and o[1:2] != [1] or o[0] == "set"]
+                cases.append(c)
         # numerically equal numbers of different types, both orders
         for d in ALL_DESIGNS:
             for role in [r for r in _roles(d) if r]:
@@ -731,6 +757,14 @@ def _random_hist(rng):
     ctrls = [(i, roles[i], safe) for i, s in enumerate(srcs) if s["flav"] == "ctrl"]
     c = {"entry": "hist", "srcs": srcs, "dsgs": ds,
          "ops": _interleave(rng, nd, rng.randint(1, 4), ctrls, rng.choice(["seq", "rr", "rand", "late"]))}
+    if rng.random() < 0.15:
+        # one more call, which raises, somewhere in the history
+        cand = [j for j, d in enumerate(ds) if d["kind"] in ("comb", "resonator", "klapuri")]
+        if cand:
+            d = dict(ds[rng.choice(cand)])
+            d["bad"] = "frac-delay" if d["kind"] == "comb" else "none-bw"
+            ds.append(d)
+            c["ops"].insert(rng.randint(0, len(c["ops"])), ["build", len(ds) - 1])
     # drop the objects nobody uses (renumbering)
     return _drop_unused(c)
 
@@ -867,6 +901,12 @@ def shrink_hist(c):
                 if d[w].get("type") != "float":
                     nd = dict(d, **{w: dict(d[w], type="float")})
                     out.append(dict(c, dsgs=c["dsgs"][:j] + [nd] + c["dsgs"][j + 1:]))
+        for w, role in zip(("p1", "p2"), _roles(d)):
+            if role and "const" in d[w]:
+                for r in b._simpler(d[w]["const"]):
+                    if (1e-3 <= r <= 3.14 if role == "freq" else 1e-3 <= r <= 1 if role == "bw" else r > 0 if role == "tau" else True):
+                        nd = dict(d, **{w: dict(d[w], const=_f(r))})
+                        out.append(dict(c, dsgs=c["dsgs"][:j] + [nd] + c["dsgs"][j + 1:]))
         if d["kind"] == "comb" and d["delay"] > 1:
             for nd_ in (1, d["delay"] // 2, d["delay"] - 1):
                 if 1 <= nd_ < d["delay"]:
@@ -1001,7 +1041,8 @@ def delay_class(d):
 def tally_hist(eng, c, io):
     eng.count("hist_designs", len(c["dsgs"]))
     eng.count("hist_steps", _bucket(len(c["ops"]), (4, 8, 16, 32)))
-    eng.count("hist_outside_property(non-Stream iterable where a Stream is needed)", str(outside(c)))
+    eng.count("hist_non_Stream_iterable_argument", "refused today (TypeError)" if outside(c, True) else
+              "accepted today" if outside(c) else "none")
     if not c["srcs"]:
         eng.count("hist_shared_object", "none (numbers only)")
     for i, s in enumerate(c["srcs"]):
@@ -1023,6 +1064,8 @@ def tally_hist(eng, c, io):
     tk = [o[1] for o in c["ops"] if o[0] == "take"]
     if any(tk[i] != tk[i + 1] for i in range(len(tk) - 1)) and len(set(tk)) > 1:
         eng.count("hist_pattern", "interleaved instants")
+    if any(d.get("bad") for d in c["dsgs"]):
+        eng.count("hist_pattern", "a call that raises (%s) among the builds" % next(d["bad"] for d in c["dsgs"] if d.get("bad")))
     if any(st.get("err") for st in io.get("steps", [])):
         eng.count("hist_impl_error", next(st["err"] for st in io["steps"] if st.get("err")))
 
